@@ -107,6 +107,18 @@ def deep_cases(rng, tier):
                    tag='deep-nontail', monitor='c19_nested', timeout=120, fuel=10 ** 9)
     # runs into the evaluator's frame limit
     yield Case(program="ㄴ ㄱㅇ ㅎㄱ ㄷㅎㄷ ㅎ ㅎㄱ", mode='events', tag='deep-limit', monitor='c19_nested', timeout=120, fuel=10 ** 9)
+    # non-tail recursion that fails at the bottom: the exception unwinds through n pending calls of the same source
+    # expression — f(n) = n == 0 ? 0/0 : 1 + f(n-1) — uncaught, caught outside, caught half-way; and g(g(x)) failing inside
+    F = "((ㄱ ㄱ ㄴㄴㅎㄷ) (ㄴ (ㄱㅇㄱ ㄴㄱ ㄷㅎㄷ ㄱㅇ ㅎㄴ) ㄷㅎㄷ) (ㄱㅇㄱ ㄱ ㄴㅎㄷ) ㅎㄷ ㅎ)"
+    for n in ([0, 1, 3, 40] if tier == 'quick' else [0, 1, 2, 3, 10, 40, 400, 2000]):
+        yield Case(program=f"{enc(n)} {F} ㅎㄴ", mode='events', tag='unwind-nontail', monitor='c19_nested', timeout=60, fuel=10 ** 8)
+        yield Case(program=f"({enc(n)} {F} ㅎㄴ) (ㄴㄱ ㅎ) ㅅㄷㅎㄷ", mode='events', tag='unwind-nontail-caught', monitor='c19_nested', timeout=60, fuel=10 ** 8)
+        yield Case(program=f"ㄴ ({enc(n)} {F} ㅎㄴ) ㄷㅎㄷ", mode='events', tag='unwind-nontail-nested', monitor='c19_nested', timeout=60, fuel=10 ** 8)
+    G = "((ㄱㅇㄱ ㄱ ㄴㅎㄷ) (ㄱ ㄱ ㄴㄴㅎㄷ) (ㄱㅇㄱ ㄴㄱ ㄷㅎㄷ) ㅎㄷ ㅎ)".replace("(ㄱㅇㄱ ㄱ ㄴㅎㄷ) (ㄱ ㄱ ㄴㄴㅎㄷ) (ㄱㅇㄱ ㄴㄱ ㄷㅎㄷ) ㅎㄷ", "(ㄱ ㄱ ㄴㄴㅎㄷ) (ㄱㅇㄱ ㄴㄱ ㄷㅎㄷ) (ㄱㅇㄱ ㄱ ㄴㅎㄷ) ㅎㄷ")
+    for x in (0, 1, 2, 5):
+        # g(x) = x == 0 ? 0/0 : x - 1;  g(g(x)), g(g(g(x))): the inner call fails while outer calls of the same expression wait
+        yield Case(program=f"(λ ((({enc(x)} ㄱㅇㄱ ㅎㄴ) ㄱㅇㄱ ㅎㄴ) ㄱㅇㄱ ㅎㄴ ㅎ)".replace("(λ (", "(").replace(" ㅎ)", " ㅎ)") + f" ㅎㄱ".replace(" ㅎㄱ", "") if False else
+                   f"{G} ((({enc(x)} ㄱㅇㄱ ㅎㄴ) ㄱㅇㄱ ㅎㄴ) ㄱㅇㄱ ㅎㄴ ㅎ) ㅎㄴ", mode='events', tag='unwind-self-applied', monitor='c19_nested', timeout=60)
     for n in ([2600] if tier == 'quick' else [100, 2600, 6000]):
         # t(n) = n == 0 ? throw : t(n-1), uncaught and caught by ㅅㄷ
         loop = f"{enc(n)} (ㄱㅇㄱ ㄴㄱ ㄷㅎㄷ ㄱㅇ ㅎㄴ (ㄷ ㄷㅂㅎㄴ ㄷㅈㅎㄴ) (ㄱㅇㄱ ㄱ ㄴㅎㄷ) ㅎㄷ ㅎ) ㅎㄴ"
